@@ -453,6 +453,27 @@ class Flow:
     _cur_state_for_binding = None
 
     def _loop(self, n, st, cond, body, inc, is_do):
+        ordn, lc = self._loop_contract(n)
+        entry_st = st.fork() if (lc is not None and not isinstance(lc, (list, tuple)) and lc.get('stop_after')) else None
+        outs = self._loop_inner(n, st, cond, body, inc, is_do)
+        if entry_st is not None and not self.discovery:
+            # PREFIX contract: the clauses are proved on every state that leaves this loop normally and the path ends there; the rest
+            # of the function is not part of the verified text (the unit is reported as a prefix)
+            from .cexpr import eval_clauses
+            exe = self.exe
+            fn = exe.fn_stack[-1]
+            kept = []
+            for o in outs:
+                if o.kind != 'next':
+                    kept.append(o)
+                    continue
+                for cname, term in eval_clauses(exe, lc['stop_after'], o.st, fn, loop_entry=entry_st):
+                    exe.emit('%s/after_loop%d/%s' % (fn, ordn, cname), term, o.st, kind='post')
+            exe.__dict__.setdefault('prefix_units', set()).add((fn, ordn))
+            return kept
+        return outs
+
+    def _loop_inner(self, n, st, cond, body, inc, is_do):
         exe = self.exe
         self._cur_state_for_binding = st
         ordn, lc = self._loop_contract(n)
